@@ -293,7 +293,7 @@ func visitInstr(fr *frame, instr ssa.Instruction) continuation {
 		i.m.spawn(fmt.Sprint(instr.Call.Value), func() {
 			call(i, nil, pos, fn, args)
 		})
-		if i.m.sc.preempt {
+		if i.m.sc.preempt >= 1 {
 			i.m.yield()
 		}
 
